@@ -15,7 +15,7 @@ CONSTANTS
   Accts = {1}
   Vals = {1}
   MaxOps = %d
-  Rich = FALSE
+  Rich = "reduced"
   ClearValRevs = TRUE
   GenMode = "none"
 INVARIANT RevertNeverFails
@@ -73,15 +73,18 @@ def generate(ctx):
     if getattr(m, "zero_actions", None):
         ctx.cov["coverage_zero_actions"] = m.zero_actions
     # G1: bounded exhaustive, reduced alphabet
-    g1 = ctx.tlc_must("Journal", G_CFG % ("1", "1", 5 if quick else 6, "FALSE"), name="G1_bounded", timeout=1500)
-    for v in g1.printed:
-        if isinstance(v, dict) and v.get("kind") == "B":
-            behs.append(v["h"])
+    g1 = ctx.tlc_must("Journal", G_CFG % ("1", "1", 5 if quick else 6, '"reduced"'), name="G1_bounded", timeout=1500)
+    # G1b: bounded exhaustive, validators with delegation lists (two delegators, one validator)
+    g1b = ctx.tlc_must("Journal", G_CFG % ("1, 2", "1", 5 if quick else 6, '"deleg"'), name="G1_deleg", timeout=1500)
+    for g in (g1, g1b):
+        for v in g.printed:
+            if isinstance(v, dict) and v.get("kind") == "B":
+                behs.append(v["h"])
     n1 = len(behs)
     # G2: simulation over the rich alphabet
     depth = 22 if quick else 30
     num = 100 if quick else 1000
-    g2 = ctx.tlc_must("Journal", G_CFG % ("1, 2", "1, 2", depth, "TRUE"), name="G2_simulate", timeout=1500,
+    g2 = ctx.tlc_must("Journal", G_CFG % ("1, 2", "1, 2", depth, '"rich"'), name="G2_simulate", timeout=1500,
                       simulate={"num": num}, depth=depth + 1)
     # in simulation mode TLC evaluates the constraint on every candidate successor, so the last step fans out:
     # keep a seeded sample
